@@ -284,6 +284,9 @@ AUX_MOLS = {
     "H4_interior_f1": dict(xyz="H4", q=0, spin=0, frozen=[1], uhf=False),
     "LiH_triplet_fo0": dict(xyz="LiH", q=0, spin=2, frozen=[0], uhf=False),
     "H4+_uhf_f": dict(xyz="H4", q=1, spin=1, frozen=[[0], [0]], uhf=True),
+    # unrestricted, TWO frozen occupied alpha orbitals (their mutual Coulomb - exchange term enters the constant) and different lists per spin
+    "LiH_triplet_uhf_f01": dict(xyz="LiH", q=0, spin=2, frozen=[[0, 1], [0, 1]], uhf=True),
+    "LiH_triplet_uhf_f01_05": dict(xyz="LiH", q=0, spin=2, frozen=[[0, 1], [0, 5]], uhf=True),
     # closed-shell reference whose lowest M_s = 0 state is a triplet (the sector ground state is not a singlet)
     "H4sq_singlet_fv3": dict(xyz="H4sq", q=0, spin=0, frozen=[3], uhf=False),
     # unrestricted reference with an effective core potential (the pseudo-potential is part of the core Hamiltonian)
@@ -349,6 +352,45 @@ def h_aux_fci(env, key, mapping, utd):
                        detail=f"{e_sector} vs {e_fci}")
 
 
+def h_aux_solver_reuse(env, uhf):
+    """AUXILIARY concrete shape (no solver role): ONE integral-solver object handed (documented `solver=` argument) to the
+    successive molecules of a bond scan - each molecule is built and evaluated before the next one is built (the solver object
+    holds the orbital coefficients of the molecule built last, by design; going BACK to an earlier molecule is not claimed):
+    for each molecule the reference determinant's expectation of ITS Hamiltonian equals ITS mean-field energy (1e-6)"""
+    from tangelo import SecondQuantizedMolecule
+    from tangelo.toolboxes.molecular_computation.integral_solver_pyscf import IntegralSolverPySCF
+    from tangelo.toolboxes.qubit_mappings.mapping_transform import fermion_to_qubit_mapping
+    from openfermion import get_sparse_operator
+    geoms = [[("H", (0.0, 0.0, 0.0)), ("H", (0.0, 0.0, 0.8)), ("H", (0.0, 0.5, 1.9)), ("H", (0.2, 0.0, 2.7))],
+             [("H", (0.0, 0.0, 0.0)), ("H", (0.0, 0.0, 1.3)), ("H", (0.0, 0.9, 2.2)), ("H", (0.4, 0.0, 3.6))],
+             [("H", (0.0, 0.0, 0.0)), ("H", (0.0, 0.0, 1.0)), ("H", (0.0, 0.7, 2.0)), ("H", (0.3, 0.0, 3.1))]]
+    with shim.concrete_mode():
+        solver = IntegralSolverPySCF()
+        q_, sp_ = (1, 1) if uhf else (0, 0)
+
+        def e_ref(m):
+            n, ne, sp = m.n_active_sos, m.n_active_electrons, m.active_spin
+            qH = fermion_to_qubit_mapping(m.fermionic_hamiltonian, "jw", n_spinorbitals=n, n_electrons=ne, up_then_down=False, spin=sp)
+            M = get_sparse_operator(qH, n_qubits=n).toarray()
+            na, nb = (ne + sp) // 2, (ne - sp) // 2
+            bits = ["0"] * n
+            for i in range(na):
+                bits[2 * i] = "1"
+            for i in range(nb):
+                bits[2 * i + 1] = "1"
+            return float(M[int("".join(bits), 2), int("".join(bits), 2)].real)
+        mfs = []
+        for step, g in enumerate(geoms):
+            m = SecondQuantizedMolecule(g, q=q_, spin=sp_, basis="sto-3g", uhf=uhf, solver=solver)
+            e, mf = e_ref(m), float(m.mf_energy)
+            mfs.append(mf)
+            env.check_true(abs(e - mf) < 1e-6, f"shared solver object, scan step {step} (uhf={uhf}): <ref|H|ref> == that molecule's mean-field energy",
+                           detail=f"{e} vs {mf}")
+            e2 = e_ref(m)
+            env.check_true(abs(e2 - mf) < 1e-6, f"shared solver object, scan step {step} (uhf={uhf}), Hamiltonian read a second time", detail=f"{e2} vs {mf}")
+    env.check_true(min(abs(a - b) for i, a in enumerate(mfs) for b in mfs[i + 1:]) > 1e-3, "harness premise: the geometries have different energies")
+
+
 def h_aux_rotation(env, key):
     """AUXILIARY concrete shape (no solver role): the documented optional mo_coeff= argument. Rotating two ACTIVE orbitals among
     themselves changes the integrals but not the spectrum: the lowest (N, Sz)-sector eigenvalue of the Jordan-Wigner matrix built
@@ -409,6 +451,9 @@ def shapes(tier, seed):
             if key.startswith("LiH") and (mp, utd) != ("jw", False):
                 continue
             out.append(Shape(f"aux/fci_sector/{key}/{mp}/utd={int(utd)}", h_aux_fci, dict(key=key, mapping=mp, utd=utd), modules=()))
+    for uhf_ in (False, True):
+        if not any(s_.name == f"aux/solver-reuse/uhf={int(uhf_)}" for s_ in out):
+            out.append(Shape(f"aux/solver-reuse/uhf={int(uhf_)}", h_aux_solver_reuse, dict(uhf=uhf_), modules=()))
     for key in ("H4_interior_f1", "H4+_doublet_fo0", "LiH_triplet_fo0"):
         out.append(Shape(f"aux/rotation/{key}", h_aux_rotation, dict(key=key), modules=()))
     refs = [(2, 2, 0, None), (3, 4, 0, [0]), (3, 2, 0, [2]), (3, 2, 0, [1])]
